@@ -82,6 +82,13 @@ func (k KerberosProxy) Handler(w http.ResponseWriter, r *http.Request) {
 		return
 	}
 
+	// the embedded kerberos message carries a 4 byte length prefix (stripped for udp kdcs)
+	if len(msg.Message) < 4 {
+		log.Printf("Kerberos message too short: %d bytes", len(msg.Message))
+		http.Error(w, "Invalid request", http.StatusBadRequest)
+		return
+	}
+
 	krb5resp, err := k.forward(msg.Realm, msg.Message)
 	if err != nil {
 		log.Printf("cannot forward to kdc due to %s", err)
